@@ -54,6 +54,8 @@ const (
 	routeBatch1Name = 2 // batch of one, by name
 	routeBatch2Key  = 3 // batch of two (with an unrelated plain account of the same instance), by public key
 	routeBatch2Last = 4 // batch of two by public key, the duty first and a companion entry that is refused last
+	routeStale      = 5 // not a duty at all: a batch of two whose entry for the account is an older attestation (source 0,
+	// target 1), which is refused once anything later has been signed; neither duty may become signable through it
 )
 
 // A sequence element: duty (0 = first, 1 = second of the conflicting pair) + 2*route.
@@ -108,6 +110,20 @@ func signDuty(c *rig.Cluster, id uint64, account string, d duty, route int) []by
 	return sig
 }
 
+// signStale sends instance id a batch of two: an approved entry for a fresh plain account and, for the distributed
+// account, an attestation older than both duties of any pair with targets >= 2.
+func signStale(c *rig.Cluster, id uint64, account string) {
+	n := c.Nodes[id]
+	creds := &checker.Credentials{Client: rig.DefaultClient, RequestID: "s", IP: "10.0.0.1"}
+	_, acc, err := n.Rig.RealFetch.FetchAccount(n.Rig.Ctx, account)
+	if err != nil {
+		return
+	}
+	comp := n.Rig.AddSymAccount("Wallet 1", "", "pass", true)
+	n.Rig.Signer.SignBeaconAttestations(n.Rig.Ctx, creds, []string{"", ""}, [][]byte{comp.PubBytes(), acc.PublicKey().Marshal()},
+		[]*rules.SignBeaconAttestationData{AttData(Ent{S: 0, T: 1, Root: 1}), AttData(Ent{S: 0, T: 1, Root: 9})})
+}
+
 // c14RoutedSequences: every sequence of length <= 2 over the routed duties (5 routes for attestations, the two
 // single routes for proposals), plus every sequence of length 3 over the plain single-by-name duties.
 func c14RoutedSequences(prop bool) [][]int {
@@ -129,6 +145,15 @@ func c14RoutedSequences(prop bool) [][]int {
 	for _, s := range c14Sequences(3) {
 		if len(s) == 3 {
 			res = append(res, s)
+		}
+	}
+	if !prop {
+		// An older attestation for the account, inside a batch, between (and before, and after) the two duties.
+		stale := 2 * routeStale
+		for a := 0; a < 2; a++ {
+			for b := 0; b < 2; b++ {
+				res = append(res, []int{a, stale, b}, []int{stale, a, b}, []int{a, b, stale}, []int{2*routeSingleKey + a, stale, 2*routeBatch1Name + b})
+			}
 		}
 	}
 	return res
@@ -167,6 +192,12 @@ func runAssignment(c *rig.Cluster, ids []uint64, t uint32, pair dutyPair, seqs [
 	for i, id := range ids {
 		ra, rb := false, false
 		for _, d := range seqs[i] {
+			if symRoute(d) == routeStale {
+				if !pair.a.prop && pair.a.e.T >= 2 && pair.b.e.T >= 2 {
+					signStale(c, id, account)
+				}
+				continue
+			}
 			if symDuty(d) == 0 {
 				if sig := signDuty(c, id, account, pair.a, symRoute(d)); len(sig) > 0 {
 					sigsA[id] = sig
@@ -438,7 +469,7 @@ func C14(tier string) int {
 			for _, seq := range c14RoutedSequences(false) {
 				hasBatch2 := false
 				for _, sym := range seq {
-					if r := symRoute(sym); r == routeBatch2Key || r == routeBatch2Last {
+					if r := symRoute(sym); r == routeBatch2Key || r == routeBatch2Last || r == routeStale {
 						hasBatch2 = true
 					}
 				}
@@ -471,7 +502,7 @@ func C14(tier string) int {
 	run.Coverage = map[string]any{
 		"evaluations":                         cells + schedExecs,
 		"distinct_nontrivial":                 len(outcomes),
-		"rule":                                fmt.Sprintf("for every accepted (n,t) with n <= %d and every conflicting pair (double vote with same and with other source, surround, double proposal, and double votes / double proposal at the lowest legal values 0->0, 0->1, slot 0): every assignment of request sequences over the two duties to the instances (all 15 sequences of length <= 3 per instance for n <= %d, five representative sequences above), each on a freshly DKG-generated account on real instances; on a 2-of-2 account one instance additionally receives every sequence of length <= 2 over duty x route (single by name, single by share key, batch of one, batch of two after an approved companion, batch of two before a refused companion), the sequences containing a batch of two also with GOMAXPROCS=1 so that one Scatter worker handles the whole batch; per assignment no instance may release partial signatures for both duties, and real threshold recovery over every t-subset must not succeed for both duties; plus both duties delivered concurrently to one instance under the cooperative scheduler (preemption bound %d); distinct = (n,t,pair,outcome vector) classes", maxN, fullN, bound),
+		"rule":                                fmt.Sprintf("for every accepted (n,t) with n <= %d and every conflicting pair (double vote with same and with other source, surround, double proposal, and double votes / double proposal at the lowest legal values 0->0, 0->1, slot 0): every assignment of request sequences over the two duties to the instances (all 15 sequences of length <= 3 per instance for n <= %d, five representative sequences above), each on a freshly DKG-generated account on real instances; on a 2-of-2 account one instance additionally receives every sequence of length <= 2 over duty x route (single by name, single by share key, batch of one, batch of two after an approved companion, batch of two before a refused companion) and sequences with a refused older attestation for the account, sent inside a batch, before, between and after the duties; the sequences containing a batch of two also with GOMAXPROCS=1 so that one Scatter worker handles the whole batch; per assignment no instance may release partial signatures for both duties, and real threshold recovery over every t-subset must not succeed for both duties; plus both duties delivered concurrently to one instance under the cooperative scheduler (preemption bound %d); distinct = (n,t,pair,outcome vector) classes", maxN, fullN, bound),
 		"samples":                             samples.List(),
 		"routed_sequences_with_one_processor": oneProc,
 		"exhaustive":                          !capped,
